@@ -33,6 +33,11 @@ pub fn run_one(
         if let Some(profile) = props::enga_profile(&property, tier) {
             return crate::enga::run(seed, &profile, &mask, &scratch)
         }
+        if let Some(profile) = crate::engc::profile(
+            &property, tier == Tier::Thorough
+        ) {
+            return crate::engc::run(seed, &profile, &mask, &scratch)
+        }
         panic!("no engine for property {property}")
     }).unwrap().join().unwrap_or_else(|_| {
         RunResult {
